@@ -36,10 +36,17 @@ def sortHistory (ps : List String) : List String :=
       let keep := pre.take (pre.length - histRev.length)
       keep ++ (histRev.toArray.qsort (· < ·)).toList ++ tail
 
+/-- presence notifications are dispatched by their own goroutine: relative to the packets the
+connection's own goroutine writes they may arrive earlier or later, so they are listed after
+them (in queue order among themselves) -/
+def isNotification (p : String) : Bool :=
+  (p.splitOn "event=subscribe").length > 1 || (p.splitOn "event=unsubscribe").length > 1
+
 def renderOut (st : St) (out : Out) (sortAll sortHist : Bool) (drop : Option String) : String :=
   let parts := st.order.filterMap (fun n =>
     if drop == some n then none else
     let ps := (out.filter (·.1 == n)).map (fun e => showPkt e.2)
+    let ps := ps.filter (!isNotification ·) ++ ps.filter isNotification
     if ps.isEmpty then none else
     let ps := if sortAll then (ps.toArray.qsort (· < ·)).toList else if sortHist then sortHistory ps else ps
     some (n ++ "<" ++ "|".intercalate ps))
